@@ -559,6 +559,11 @@ fn gen_plan_inner(id: &str, seed: u64, _run: u64, tier: Tier) -> PlanA {
             if inst.n > 8 {
                 inst.n = 2 + rng.below(5) as u8;
             }
+            // a twelfth of the runs: the harness's two-gadget circuit (the shipped circuits all have one gadget)
+            let cube = rng.chance(1, 12);
+            if cube {
+                inst = Inst { class: "cube".into(), n: 2 + rng.below(3) as u8, proofs: 1 + rng.below(2) as u8, max: N(1), len: 2, chunk: 1, weight: 1, mt: false, named: false, xof: String::new() };
+            }
             let k = 1 + rng.usize_below(3);
             if rng.chance(2, 5) {
                 // Byzantine client
@@ -572,6 +577,15 @@ fn gen_plan_inner(id: &str, seed: u64, _run: u64, tier: Tier) -> PlanA {
                     p.reports[victim].evil = true;
                 } else {
                     let (raw, _) = model::gen_invalid_raw(&p.inst, rng);
+                    // a client that also forges one element of its own proof: for the two-gadget circuit the forged
+                    // amount is the one by which y misses x^3 (what a cheater would try), at a seeded proof element
+                    if cube && rng.chance(2, 3) {
+                        let pm = model::modulus(&p.inst);
+                        let x = raw[0].0 % pm;
+                        let d = if x < (1 << 40) { model::sub_mod(raw[1].0 % pm, x * x * x % pm, pm) } else { 0 };
+                        let delta = if d != 0 && rng.chance(3, 4) { d } else { *rng.pick(&[1u128, 2, pm - 1]) };
+                        p.faults.push(Fault { kind: EnvKind::Upload, rep: victim as u32, ap: 0, from: CLIENT, to: 0, round: 0, at_source: false, act: Act::Mutate { part: 1, m: Mutation::FieldAdd { region: 1, elem: rng.u32(), delta: N(delta) } } });
+                    }
                     p.reports[victim].meas = raw;
                     p.reports[victim].evil = true;
                 }
